@@ -589,43 +589,30 @@ var (
 	reNonGreedyDrop   = regexp.MustCompile(`\{[01]\}\?`)
 	reBraceDigits     = regexp.MustCompile(`\{[0-9]+(,[0-9]*)?\}`)
 	rePosixSpace      = regexp.MustCompile(`\[\^?\[:\^?space:\]\]`)
-	reOctalJoin       = regexp.MustCompile(`\\[0-7]{1,2}(\(\?:[0-7]\)|\[[0-7]\])`)
+	reOctalJoin       = regexp.MustCompile(`\\[0-7]{1,2}(\(\?:[0-7]\)|\[[0-7]\]|\{1\}[0-7]|.\{0\}[0-7])`)
+	reLitAlt          = regexp.MustCompile(`([^|()\[\]\\*+?{}.^$]+)\|([^|()\[\]\\*+?{}.^$]+)`)
 	reEscapedInBraces = regexp.MustCompile(`\{[0-9]+\\,[0-9]*\}`)
 	reUnwrapRepeat    = regexp.MustCompile(`(\[\{\]|\(\?:\{\))[0-9]|\{[0-9]+(\[,\]|\(\?:,\))|\{[0-9]+,?[0-9]*(\[\}\]|\(\?:\}\))`)
 	reFlagGroup       = regexp.MustCompile(`\(\?[imsU-]+:`)
 	reFlagOnlyQuant   = regexp.MustCompile(`\(\?[imsU-]*\)([*+?]|\{[0-9])`)
-	reEmptyBranch     = regexp.MustCompile(`^\||\|$|\(\||\|\)|\|\||\(\?[a-zA-Z-]*:\|`)
-	reDashRange       = regexp.MustCompile(`\[[^\]]*(.--|--[^\]])`)
+	reDashRange       = regexp.MustCompile(`\[.*(.--|--.|.-.-.).*\]`)
 )
 
-// singleRuneAlt: x|y|z with one rune per branch, possibly inside one group
-func singleRuneAlt(p string) ([]string, bool) {
-	for again := true; again; {
-		again = false
-		for _, pre := range []string{"(?:", "("} {
-			if strings.HasPrefix(p, pre) && strings.HasSuffix(p, ")") {
-				p = p[len(pre) : len(p)-1]
-				again = true
-				break
-			}
-		}
+var reSingleRuneAlt = regexp.MustCompile(`(?:^|\(|\(\?:)((?:[^|()\\]\|)+[^|()\\])(?:\)|$)`)
+
+// singleRuneAlt: the branches of some x|y|z with one rune per branch (whole pattern or a whole group)
+func singleRuneAlt(p string) [][]string {
+	var out [][]string
+	for _, m := range reSingleRuneAlt.FindAllStringSubmatch(p, -1) {
+		out = append(out, strings.Split(m[1], "|"))
 	}
-	parts := strings.Split(p, "|")
-	if len(parts) < 2 {
-		return nil, false
-	}
-	for _, x := range parts {
-		if utf8.RuneCountInString(x) != 1 {
-			return nil, false
-		}
-	}
-	return parts, true
+	return out
 }
 
 // classify: a stable defect-class name from a shrunk (pattern, rewrite, difference).
+// Mechanisms recognisable from the pattern come first, whatever the observable damage is.
 func classify(pat, rw string, d *diff) string {
 	has := strings.Contains
-	// mechanisms that are recognisable from the pattern alone, whatever the observable damage is
 	switch {
 	case reFlagGroup.MatchString(pat) && !reFlagGroup.MatchString(rw):
 		return "flag-group-loses-question-mark"
@@ -633,10 +620,10 @@ func classify(pat, rw string, d *diff) string {
 		return "nongreedy-over-dropped-repeat"
 	case reFlagOnlyQuant.MatchString(pat):
 		return "quantifier-after-flag-group"
-	case reEmptyBranch.MatchString(pat) && has(rw, "|?"):
+	case has(rw, "|?") && !has(pat, "|?"):
 		return "empty-alt-branch-factored"
 	}
-	if parts, ok := singleRuneAlt(pat); ok && !has(rw, "|") {
+	for _, parts := range singleRuneAlt(pat) {
 		for i, x := range parts {
 			if x == "]" && i > 0 {
 				return "alt-to-class-bracket"
@@ -647,7 +634,18 @@ func classify(pat, rw string, d *diff) string {
 				return "alt-to-class-dash"
 			}
 		}
-		return "alt-to-class-other"
+	}
+	switch {
+	case reOctalJoin.MatchString(pat):
+		return "unwrap-joins-octal-escape"
+	case reEscapedInBraces.MatchString(pat):
+		return "escape-removal-creates-repeat"
+	case has(pat, `[\:`):
+		return "escape-removal-creates-posix-class"
+	case reUnwrapRepeat.MatchString(pat):
+		return "unwrap-creates-repeat"
+	case reDashRange.MatchString(pat):
+		return "range-enumeration-creates-range"
 	}
 	switch d.Kind {
 	case "compile":
@@ -663,24 +661,20 @@ func classify(pat, rw string, d *diff) string {
 		}
 		return "capture-count-other"
 	}
-	// match differences
 	switch {
 	case rePosixSpace.MatchString(pat) && (has(rw, `\s`) || has(rw, `\S`)) && has(d.Subject, "\v"):
 		return "posix-space-class"
 	case has(pat, "[][]") && has(rw, `\]\[`):
 		return "class-brackets-to-two-runes"
-	case reOctalJoin.MatchString(pat):
-		return "unwrap-joins-octal-escape"
-	case reEscapedInBraces.MatchString(pat):
-		return "escape-removal-creates-repeat"
-	case has(pat, `\:`) && has(rw, "[:") && !has(pat, "[:"):
-		return "escape-removal-creates-posix-class"
-	case reUnwrapRepeat.MatchString(pat):
-		return "unwrap-creates-repeat"
-	case reDashRange.MatchString(pat):
-		return "range-enumeration-creates-range"
-	case has(pat, "|") && !has(rw, "|") && strings.HasSuffix(strings.TrimRight(rw, ")"), "?"):
-		return "alt-prefix-order"
+	}
+	if d.Kind == "match" && has(pat, ")*") && has(rw, ")+") {
+		return "merge-of-nullable-group"
+	}
+	for _, m := range reLitAlt.FindAllStringSubmatch(pat, -1) {
+		m[1] = strings.TrimPrefix(m[1], ":")
+		if d.Kind == "match" && m[1] != "" && strings.HasPrefix(m[2], m[1]) && utf8.RuneCountInString(m[2]) == utf8.RuneCountInString(m[1])+1 {
+			return "alt-prefix-order"
+		}
 	}
 	return "unclassified"
 }
@@ -1005,6 +999,9 @@ var corpus = []string{
 	`(?:(a))(?:(a))`, `(?:(a))(?:(a))*`, `a(?:{)2}`, `(?:(a)b){1}`, `(a|b){0,1}?`, `(?i)[k][K]`, `(?s).{1,}`, `(?U)a{0,}b`,
 	`(|a)*`, `(|a)+`, `(a*)*b`, `(a*)+b`, `(a|b*)*c`, `(?:a*|b)*?c`, `(a??)*b`, `^a$|\bb\B`, `(?m)^a$`, `\Qa.b\E+`,
 	`a{2,3}?b`, `(a){2}`, `(a)|b`, `(?P<n>a)(b)?`, `[^a]`, `[a-c]`, `[a-a]`, `[a-b]`, `x\&y`, `\.\.`, `a    b`,
+	`(?i:a)[b]`, `(?s:.)\.\.`, `(|a)*b{1}`, `a|`, `(?:s*?b*)(?:s*?b*)*`, `s(?i){0}`, `\0{1}0`, `[a-b-*]`, `(?:❤x|❤xb)`,
+	`(?:a*b*)*c`, `(a*?)*b`, `(?:a?)*?b`, `((a*)+)+`, `(a*|b)+?c`, `(a??b??)*c`, `(?:(a)|b*)*c`, `(a*){2,3}b`, `(a*){2,}b`, `(a?){3}`,
+	`(a|){2,}?b`, `(?:a|(b))+`, `(?:(a)|(b))*`, `(a)*?(b)??`, `(?i)k+|ſ`, `(?i)[^k]`, `(?i)\W`, `(?s).\n`, `(?m)^$`, `(?U)a+?`, `(?U:a*)a`,
 	`....`, `aaaaa`, `\d\d\d`, `[ab][ab]`, `(?:ab)(?:ab)`, `[^\s]`, `[^\S]`, `[0-9]`, `[^0-9]`, `(?:a|b|c)`,
 }
 
@@ -1236,6 +1233,18 @@ func generatePatterns(tier string, seed int64) ([]string, []string, map[string]i
 			}
 		}
 		if add(p, "class") {
+			n++
+		}
+	}
+	lr := common.NewRand(seed, "c11-loops")
+	loopTokens := []string{"a", "b", "a", "(", ")", "(?:", ")", "|", "*", "+", "?", "*?", "+?", "??", "{2}", "{1,2}", "{2,}", "{0,1}", "c"}
+	for n, tries := 0, 0; n < 250*scale && tries < 60000*scale; tries++ {
+		k := 3 + lr.Intn(7)
+		var b strings.Builder
+		for i := 0; i < k; i++ {
+			b.WriteString(loopTokens[lr.Intn(len(loopTokens))])
+		}
+		if add(b.String(), "loops") {
 			n++
 		}
 	}
